@@ -733,7 +733,11 @@ func fieldCarriesUserName(call *ssa.Call, v ssa.Value) bool {
 		if !isRet {
 			continue
 		}
-		sy := km.SymOf(km.ReturnValues(ret)[0])
+		rv := km.ReturnValues(ret)[0]
+		if cst, isC := km.Unwrap(rv).(*ssa.Const); isC && cst.Value == nil {
+			continue // the zero record of a refusing return: no name in it
+		}
+		sy := km.SymOf(rv)
 		if sy == nil || sy.Op != "struct" {
 			return false
 		}
